@@ -316,7 +316,10 @@ class Theory:
         
         """
         if seq.rule == "":
-            # Empty line in the proof
+            # Empty line in the proof. It justifies nothing, so it cannot
+            # carry a statement.
+            if seq.th is not None:
+                raise CheckProofException("empty rule with statement")
             return None
 
         if seq.rule == "sorry":
